@@ -46,7 +46,9 @@ Section Noise.
     let n := ofnat O (length X) in
     let s := mdivs (ss p X) n in
     let '(b2, d2, m) := eye_lambda p X in
-    tabulate p (fun j k => (((b2 / d2) * m) * kron j k + ((d2 - b2) / d2) * entry s j k) * n / dof).
+    (* d2 = 0: s already is a multiple of the identity (e.g. one channel): nothing to shrink *)
+    if neqb O d2 (n0 O) then tabulate p (fun j k => entry s j k * n / dof)
+    else tabulate p (fun j k => (((b2 / d2) * m) * kron j k + ((d2 - b2) / d2) * entry s j k) * n / dof).
 
   (* Schaefer-Strimmer shrinkage towards the diagonal; s_mean^2 needs no square root *)
   Definition diag_lambda (p : nat) (X : list (list F)) (dof : F) : F :=
@@ -58,7 +60,7 @@ Section Noise.
     let s2mean j k := entry (ss2 p X) j k / ((var j * var k) * n1') in
     let var_hat j k := (n / (dof * dof)) * (s2mean j k - smean2 j k) in
     let off f := msum (tabulate p (fun j k => if Nat.eqb j k then n0 O else f j k)) in
-    let lamb := off var_hat / off smean2 in
+    let lamb := if neqb O (off smean2) (n0 O) then n0 O else off var_hat / off smean2 in
     nmax O (nmin O lamb (n1 O)) (n0 O).
   Definition cov_shrink_diag (p : nat) (X : list (list F)) (dof : F) : list (list F) :=
     let s := mdivs (ss p X) dof in
